@@ -3,7 +3,7 @@
    This file contains statements only; proofs live in Text/*Proofs.v. *)
 From Coq Require Import List NArith.
 From Dials Require Import Base.Outcome Base.Runes Text.CaseConv Text.GoCamelSpec
-  Text.CaseConvProofs Text.GoCamelProofs Text.GoCamelFacts.
+  Text.CaseConvProofs Text.GoCamelProofs Text.GoCamelFacts Text.CaseTitle Text.CaseTitleProofs.
 Import ListNotations.
 
 (* lword w : w matches [a-z][a-z0-9]*.  An identifier has at least one word;
@@ -33,6 +33,16 @@ Theorem decode_encode_cp_snake : forall ws, Forall lword ws -> ws <> [] ->
   decode_cp_snake (encode_cp_snake ws) = Ok ws.
 Proof. exact decode_encode_cp_snake_l. Qed.
 
+(* The camel laws above are stated with CaseConv.v's `title` (upper-case the first
+   rune).  The faithful ASCII model of x/text's cases.Title(NoLower) algorithm
+   (Text/CaseTitle.v: word boundaries, mid-word punctuation, casing after digits)
+   gives the same encoders on these word lists, so the laws hold for it too; the
+   correspondence check compares the implementation with the faithful model on
+   arbitrary ASCII words. *)
+Theorem camel_encoders_faithful_on_words : forall ws, Forall lword ws ->
+  encode_upper_camel_go ws = encode_upper_camel ws /\ encode_lower_camel_go ws = encode_lower_camel ws.
+Proof. exact encode_camel_go_lwords. Qed.
+
 (* Names assembled from capitalised words [A-Z][a-z][a-z0-9]* and runs of
    initialisms of the source's list (any number of segments, any order) are
    split into exactly those tokens, for every name inside the decidable guard
@@ -53,5 +63,6 @@ Print Assumptions decode_encode_lower_snake.
 Print Assumptions decode_encode_upper_snake.
 Print Assumptions decode_encode_kebab.
 Print Assumptions decode_encode_cp_snake.
+Print Assumptions camel_encoders_faithful_on_words.
 Print Assumptions go_camel_splits.
 Print Assumptions extract_initialisms_terminates.
